@@ -98,3 +98,38 @@ CHECKS["C07"] = {
          "checks_quick": 40, "checks_thorough": 1200, "shards_quick": 8, "shards_thorough": 16, "timeout_quick": 300, "timeout_thorough": 1800},
     ],
 }
+
+CHECKS["C08"] = {
+    "level": "exploration",
+    "technique": "property-based testing: generated lock contention with an interval-overlap oracle, and generated adversarial token scripts against a lock model (rapid)",
+    "level_text": ("'contend': 2-6 generated lockers (entry path, timeout, deadline, hold time, then unlock / lease / abandon) compete for one key of a real in-process cluster; from the measured instants "
+                   "each successful locker certainly holds during [Lock.response, min(release.invocation, Lock.invocation+timeout)] and two such intervals must not intersect; a failed Lock must be lock-not-acquired no earlier than its deadline. "
+                   "'script': sequential steps (lock through any path, unlock / lease with the right, a forged or a stale token, unlock twice, wait for expiry) are checked against a model of the holder and its expiry window; "
+                   "wrong tokens must give no-such-lock and leave the stored token and ttl unchanged (white box). Exploration with real timers; the harness does not own the clock."),
+    "level_note": "trusted: wall-clock stamps taken in the harness with a 3 ms guard; outcomes inside the guard window are not asserted",
+    "rule": ("contend: non-trivial = two lockers' attempts overlap in time. script: non-trivial = a timed lock taken through a non-owner member, or a stale token presented after the lock changed hands. distinct = distinct case hash"),
+    "assumptions": ["membership stable (pooled clusters)"],
+    "parts": [
+        {"name": "contend", "pkg": ROOT, "test": "TestVerifC08Contend", "kind": "rapid",
+         "checks_quick": 25, "checks_thorough": 600, "shards_quick": 8, "shards_thorough": 16, "timeout_quick": 300, "timeout_thorough": 1800},
+        {"name": "script", "pkg": ROOT, "test": "TestVerifC08Script", "kind": "rapid",
+         "checks_quick": 30, "checks_thorough": 800, "shards_quick": 8, "shards_thorough": 16, "timeout_quick": 300, "timeout_thorough": 1800},
+    ],
+}
+
+CHECKS["C09"] = {
+    "level": "exploration",
+    "technique": "model-based property testing of operation sequences around a measured expiry deadline (rapid)",
+    "level_text": ("Generated sequences (Put with EX/PX/EXAT/PXAT, DMap default TTL, plain Put, GetPut, Incr, Expire/PExpire, probes Get / NX / XX / Expire, waits past the deadline, explicit eviction scans) "
+                   "run on one key through random entry paths of a real in-process cluster with ttl 20-400 ms. The harness records invocation and response instants of every call and derives the deadline window; "
+                   "a call that responded before the window must see the key, a call invoked after it must behave as on an absent key (Get not-found, GetPut no old value, Incr from 0, NX succeeds, XX and Expire key-not-found), "
+                   "whether or not eviction already ran; plain Put/GetPut clear the expiry, Incr keeps it, Expire replaces it and keeps the value."),
+    "level_note": "trusted: wall-clock stamps taken in the harness, 2 ms guard around the deadline window; calls that overlap the window are not asserted (their observed outcome updates the model)",
+    "rule": ("case = (cluster shape, optional default TTL, 3-12 steps with paths); non-trivial = a post-deadline probe other than Get on a key that is stored but expired, or a ttl-preservation/clearing step "
+             "(Incr/Expire/plain Put/GetPut on a key with a deadline); distinct = distinct case hash"),
+    "assumptions": ["one background eviction worker instead of one per CPU, so that 'expired but not yet evicted' states persist long enough to be probed"],
+    "parts": [
+        {"name": "ttl", "pkg": ROOT, "test": "TestVerifC09", "kind": "rapid",
+         "checks_quick": 60, "checks_thorough": 1500, "shards_quick": 8, "shards_thorough": 16, "timeout_quick": 300, "timeout_thorough": 1800},
+    ],
+}
